@@ -767,6 +767,29 @@ func (cr *coreRun) clientTask(ci int, cs ClientSpec) {
 				// without the monitor nobody recognises finding F8 (the reply went out under another
 				// request's id) while the run goes on: the client gives up after a long while
 				waitReply(r, timeoutDur(&op)+expiryDur(op.Expried, op.EFlag)+300*time.Second)
+			} else if cs.Kind == "text" {
+				// a text connection drops the reply that finding F8 builds from a recycled command object (its
+				// RequestId test fails): no stray reply shows up anywhere. A text request that is in the F8
+				// window (granted, its hold ended or taken over by another request before the reply was built)
+				// and has not been answered well after its timeout is booked as such a reply
+				limit := timeoutDur(&op) + 10*time.Second
+				for waited := time.Duration(0); ; waited += time.Second {
+					if waitReply(r, time.Second) {
+						break
+					}
+					if waited >= limit && cr.h.atRisk != nil {
+						if g := cr.h.atRisk(ci); g == r {
+							ssched.NoPreempt(func() {
+								r.excused = true
+								cr.h.stray = append(cr.h.stray, Reply{Conn: r.Client, Recycled: true, Result: 0, StrayRid: r.Id, T: w.now(), Ev: cr.h.nextEv()})
+								r.finish()
+							})
+							w.probe("reply_from_recycled_command")
+							w.logf("R dropped: the reply to text request c%d#%d was built from a recycled command object and dropped by the connection (finding F8)", r.Client, r.Idx)
+							break
+						}
+					}
+				}
 			} else {
 				<-r.done
 			}
